@@ -241,7 +241,13 @@ func vForward(requestSide bool) {
 	}
 	named := requestSide && verifBool("req.connectionNamesHeader")
 	if named {
-		std.Header["Connection"] = []string{" x-custom ,keep-alive"}
+		// the header is named by the first or by a later Connection field line
+		if verifBool("req.connectionRepeated") {
+			std.Header["Connection"] = []string{"keep-alive", " x-custom "}
+			verifCover("repeated-connection-header")
+		} else {
+			std.Header["Connection"] = []string{" x-custom ,keep-alive"}
+		}
 		std.Header["X-Custom"] = []string{"c"}
 	}
 
